@@ -107,6 +107,27 @@ fn exec_toks(st: &mut State, t: &[&str]) -> String {
         "mmap" => crate::exec_ser::exec_mmap(&t[1..]),
         "tmp" => crate::exec_ser::exec_tmp(&t[1..]),
         "drop" => { st.objs.remove(t[1]); "ok".to_string() },
+        // obj clone SRC DST : `Clone::clone` of whatever SRC is
+        "obj" => {
+            if t[1] == "clone_from" {
+                // obj clone_from SRC DST : `dst.clone_from(&src)` on an existing DST of the same kind
+                let src = st.objs.remove(t[2]).expect("harness: obj clone_from: no such source");
+                match (&src, st.objs.get_mut(t[3]).expect("harness: obj clone_from: no such target")) {
+                    (Obj::Raw(s), Obj::Raw(d)) => d.clone_from(s), (Obj::Int(s), Obj::Int(d)) => d.clone_from(s), (Obj::Bv(s), Obj::Bv(d)) => d.clone_from(s),
+                    (Obj::Sparse(s), Obj::Sparse(d)) => d.clone_from(s), (Obj::Rl(s), Obj::Rl(d)) => d.clone_from(s), (Obj::Wm(s), Obj::Wm(d)) => d.clone_from(s),
+                    _ => panic!("harness: obj clone_from: kinds differ"),
+                }
+                st.objs.insert(t[2].to_string(), src);
+                return "ok".to_string();
+            }
+            assert!(t[1] == "clone", "harness: unknown obj op");
+            let c = match st.objs.get(t[2]).expect("harness: obj clone: no such object") {
+                Obj::Raw(x) => Obj::Raw(x.clone()), Obj::Int(x) => Obj::Int(x.clone()), Obj::Bv(x) => Obj::Bv(x.clone()),
+                Obj::Sparse(x) => Obj::Sparse(x.clone()), Obj::Rl(x) => Obj::Rl(x.clone()), Obj::Wm(x) => Obj::Wm(x.clone()),
+            };
+            st.objs.insert(t[3].to_string(), c);
+            "ok".to_string()
+        },
         _ => panic!("harness: unknown op {}", t[0]),
     }
 }
